@@ -263,6 +263,10 @@ def vec_nodes(n=3, full=True):
             ("fro", M),
             ("fro", ("mat", "S", 2, 2, True)),
             ("fro", ("mT", ("mat", "B", 2, 3))),
+            # norms / sums of matrix EXPRESSIONS (elements are arbitrary expressions)
+            ("fro", ("mbin", "*", M, ("sc", 2.0))),
+            ("fro", ("mbin", "-", M, ("arr2", [[1.0, 2.0], [3.0, ("sym", "c")]]))),
+            ("msum", ("mbin", "-", M, ("arr2", [[1.0, 2.0], [3.0, ("sym", "c")]]))),
             ("msum", ("mslice", ("mat", "B", 2, 3), (0, 2, None), (1, 3, None))),
             ("trace", M),
             ("trace", ("mat", "S", 2, 2, True), "func"),
